@@ -13,7 +13,47 @@ pub struct Config {
 
 impl Config {
     pub fn from_toml(toml: &str) -> MosResult<Config> {
-        Ok(toml::from_str(toml)?)
+        let config: Config = toml::from_str(toml)?;
+        config.validate()?;
+        Ok(config)
+    }
+
+    /// Widths and margins end up as padding widths, which cannot be arbitrarily large (and zero bytes per
+    /// listing line would list nothing at all)
+    fn validate(&self) -> MosResult<()> {
+        let check = |key: &str, value: usize, min: usize, max: usize| -> MosResult<()> {
+            if value < min || value > max {
+                return Err(anyhow::anyhow!(
+                    "configuration key '{}' should be between {} and {}, but is: {}",
+                    key,
+                    min,
+                    max,
+                    value
+                ));
+            }
+            Ok(())
+        };
+        let f = &self.formatting;
+        check("formatting.whitespace.indent", f.whitespace.indent, 0, 256)?;
+        check(
+            "formatting.whitespace.label-margin",
+            f.whitespace.label_margin,
+            0,
+            256,
+        )?;
+        check(
+            "formatting.whitespace.code-margin",
+            f.whitespace.code_margin,
+            0,
+            256,
+        )?;
+        check(
+            "formatting.listing.num-bytes-per-line",
+            f.listing.num_bytes_per_line,
+            1,
+            256,
+        )?;
+        Ok(())
     }
 }
 
